@@ -175,6 +175,24 @@ CLAIMS = {
         "Oracle accepts an altered-but-immaterial metadata edit if the restore is still exact (the statement's literal 'rejected' "
         "would flag description edits).",
    design="§3 C12"),
+ "C06": dict(
+   engine="tiered",
+   technique="Lean 4 proof (merge/coherence-filter model; the tiers' answers universally quantified, so the heuristic ANN cannot break the theorems) + differential correspondence and f64 reference oracle on the real engine",
+   text="C06_at_most_k, C06_distinct, C06_sorted (at most k distinct documents, non-decreasing distance); "
+        "C06_every_result_is_a_tier_answer (recent-write tier's value wins, the ANN tier's is used only for documents the "
+        "recent-write tier did not answer for); C06_results_exist (every returned document exists now, given the ANN tier's "
+        "tombstone filter); C06_stale_mirror_never_served (overwritten/deleted mirrors are dropped); C06_recent_write_present "
+        "(a coherent recent-write candidate is in the result unless k results no farther than it are) - for EVERY ANN answer. "
+        "Tie: per search the real tiers are asked for their candidate lists (model inputs), the real engine for its answer "
+        "(model output incl. side effects on the mirror); oracle on the real answer: exists now, true distance in f64 to the "
+        "CURRENT vector, order, recent writes present; dimensions {1,3,7,8,9,15,16,17,33} x metric, deletes/overwrites/drains/"
+        "bulk loads/stale plants interleaved.",
+   note="Partial: the ANN graph search and SIMD arithmetic are not modelled (inputs / f64 reference); the recent-write guarantee is "
+        "proved for candidates in the hot scan's top 2k (a hot tier holding more than 2k documents closer than the k-th result of "
+        "which more than k are stale mirrors could in principle hide a fresh one - needs an ANN miss as well; not reproducible on "
+        "the real code, see DESIGN); timed/batch APIs and degraded paths not exercised; concurrency is C05/C09. Known finding "
+        "KF-C06-normalisation-band.",
+   design="§3 C06"),
 }
 
 NOT_APPLICABLE = {
